@@ -129,7 +129,7 @@ ArgElems(c) ==      \* the elements a call names, as <<kind, id>>
       [] c.op = "reorder" -> {<<Rel[c.rel].pk, c.p>>} \cup {<<Rel[c.rel].ck, y>> : y \in SeqSet(c.seq)}
       [] c.op \in {"connect", "disconnect"} -> {<<"W", c.w>>} \cup RefElems(c.pin)
       [] c.op = "set_ref" -> {<<"I", c.i>>} \cup (IF c.d = None THEN {} ELSE {<<"D", c.d>>})
-      [] c.op \in {"set_name", "del_name", "set_name_none", "set_item", "del_item", "pop_item", "mutate_props"} -> {<<c.kind, c.x>>}
+      [] c.op \in {"set_name", "del_name", "set_name_none", "set_item", "del_item", "pop_item", "mutate_props", "drop_prop"} -> {<<c.kind, c.x>>}
       [] c.op \in {"uniquify", "flatten"} -> {<<"N", c.n>>}
       [] OTHER -> {<<"?", 0>>}
 SideClosed(s, side) ==      \* no link leaves the side (the two netlists are not entangled by earlier cross edits)
